@@ -132,6 +132,13 @@ class Executor:
 
     def need(self, st):
         def f(clause, goal):
+            # an obligation already established on this path is not repeated
+            if z3.is_expr(goal):
+                key = A.canon_key(z3.simplify(goal))
+                done = st.ghost.get('proved', frozenset())
+                if key in done:
+                    return
+                st.ghost['proved'] = done | {key}
             self.cx.oblige(st, 'no_raise/{}@L{}'.format(clause, self.cx.line),
                            goal, kind='no_raise')
         return f
